@@ -159,6 +159,9 @@ func (e *executor) knownVal(st *State, s string, depth int) (bool, bool) {
 		return v, true
 	}
 	if !strings.ContainsAny(s, " (") {
+		if def, ok := e.tm.boolDefs[s]; ok && !strings.HasPrefix(s, "pc!") {
+			return e.knownVal(st, def, depth+1)
+		}
 		return false, false
 	}
 	op, args, ok := splitApp(s)
